@@ -108,10 +108,23 @@ func bytesFromInts(a []int) []byte {
 
 var out *bufio.Writer
 
+// maxEventBytes bounds one observation. A decoder that has lost its place can return a value of many megabytes
+// (a count read from the wrong offset); no value of the universes comes near this size, so such a value is
+// reported as what it is - different from every expected value - without shipping it to the judge.
+const maxEventBytes = 2 << 20
+
 func emit(e *Event) {
 	b, err := json.Marshal(e)
 	if err != nil {
 		b, _ = json.Marshal(&Event{Ev: e.Ev, Cid: e.Cid, M: e.M, Res: "harness-error", Msg: err.Error()})
+	}
+	if len(b) > maxEventBytes && (e.HasVal || e.HasOut) {
+		// (the judge sees a call that did not return a usable result: "res" is no longer "nil")
+		e.Val, e.HasVal, e.Out, e.HasOut = nil, false, nil, false
+		if e.Res == "nil" {
+			e.Res = fmt.Sprintf("a result of %d bytes (as JSON), which no value of the universe has", len(b))
+		}
+		b, _ = json.Marshal(e)
 	}
 	out.Write(b)
 	out.WriteByte('\n')
